@@ -15,6 +15,7 @@
 package dmap
 
 import (
+	"fmt"
 	"time"
 
 	"github.com/olric-data/olric/internal/cluster/partitions"
@@ -71,6 +72,23 @@ func (s *Service) putCommandHandler(conn redcon.Conn, cmd redcon.Command) {
 	conn.WriteString(protocol.StatusOK)
 }
 
+// validateEncodedEntry reports whether the storage engine can decode value.
+// DM.PUTENTRY stores its argument verbatim in the replica fragment and every
+// later read decodes it in place. Decode has no error result and panics on
+// bytes that are not an encoded entry, so it is tried here, on a scratch entry,
+// before anything is stored.
+func (dm *DMap) validateEncodedEntry(value []byte) (err error) {
+	defer func() {
+		if r := recover(); r != nil {
+			err = fmt.Errorf("%w: malformed entry", protocol.ErrInvalidArgument)
+		}
+	}()
+	// The argument is a window into the connection's read buffer. Cap it, so
+	// that decoding past its end fails instead of reading what follows.
+	dm.engine.NewEntry().Decode(value[:len(value):len(value)])
+	return nil
+}
+
 func (s *Service) putEntryCommandHandler(conn redcon.Conn, cmd redcon.Command) {
 	putEntryCmd, err := protocol.ParsePutEntryCommand(cmd)
 	if err != nil {
@@ -80,6 +98,11 @@ func (s *Service) putEntryCommandHandler(conn redcon.Conn, cmd redcon.Command) {
 
 	dm, err := s.getOrCreateDMap(putEntryCmd.DMap)
 	if err != nil {
+		protocol.WriteError(conn, err)
+		return
+	}
+
+	if err = dm.validateEncodedEntry(putEntryCmd.Value); err != nil {
 		protocol.WriteError(conn, err)
 		return
 	}
